@@ -13,7 +13,7 @@ RULE = ("base histories = generated definitions x hashed outcomes x deterministi
         "executes the same steps minus the two requests; compared: every later offer, final status, executed "
         "multiset, errors (as multiset) and output; a second sweep inserts the pause at every position and keeps "
         "polling after every report while pausing/paused; online: no offer while pausing/paused, `paused` iff nothing in "
-        "flight; additionally the decision-shape family (exhaustive in the thorough tier, a rotating slice in the quick tier): every acyclic edge set over 4 tasks with a join x condition succeeded/failed per edge x outcome per task (4128 definitions); non-trivial = pause accepted while >= 1 action in flight or >= 1 task staged; distinct = (definition, "
+        "flight; additionally the publish-shape family (1024 definitions: edge sets x transition grouping x publish pattern over 4 tasks) and the decision-shape family (exhaustive in the thorough tier, a rotating slice in the quick tier): every acyclic edge set over 4 tasks with a join x condition succeeded/failed per edge x outcome per task (4128 definitions); non-trivial = pause accepted while >= 1 action in flight or >= 1 task staged; distinct = (definition, "
         "history, position, request form) digest")
 ASSUMPTIONS = ASSUME_SIM + ["the unpaused twin withholds the same polls as the paused run (a freely polling twin differs legitimately under fail-fast)"]
 
@@ -141,6 +141,7 @@ def jobs(tier, seed):
     js += batches("ctl_sweep", scale(tier, 32, 800), scale(tier, 2, 20), gen="mix", p_loop=0.25, P=P, gseed=seed + 1,
                   modes=["pause"], name="pause-sweep-with-polls")
     # decision-shape family (exhaustive in the thorough tier, a rotating slice in the quick tier): every acyclic edge set over 4 tasks with a join x condition succeeded/failed per edge x outcome per task (4128 definitions)
+    js += family_slices("pause_twin", 1024, 32, tier, seed, parts=2, gen="shape", thin=scale(tier, 3, 1), p_fail=0.0, name="publish-shapes-pause-twin")
     js += family_slices("pause_twin", 4128, 48, tier, seed, gen="cshape", thin=scale(tier, 3, 1), p_fail=0.0, name="decision-shapes-pause-twin")
     return js
 
